@@ -115,8 +115,8 @@ def run(tier, seed):
         cases = list(gen())
         res = e1.run_block(rep, cases, cfgs, validate_tag=PROP)
         rep.bounds[name] = len(cases)
-        for c, cfg, disc, hx in res[:: max(1, len(res) // 2)][:2]:
-            rep.sample({"text": c.text, "cfg": e1.cfg_name(cfg), "bytes": hx, "expected": repr((c.op, c.ops))})
+        for smp in res[:2]:
+            rep.sample(smp)
     rep.bounds["configurations"] = len(cfgs)
     rep.assumptions = ["GNU objdump is the meaning of bytes", "mc/isa.py (written from the SDM) is the meaning of text"]
     return rep.finish(replay)
